@@ -3,8 +3,9 @@
 Require Extraction.
 Require ExtrOcamlBasic.
 From Coq Require Import List NArith.
-From TG.Model Require Import CoreAst Scope BangOps Indexer.
+From TG.Model Require Import CoreAst Scope BangOps Indexer ScopeSpec.
 
 Extraction Language OCaml.
 Extraction "extract/scope_core.ml"
-  mkWs index_ws diagnostics goto_definition references s_bad s_pos.
+  mkWs index_ws diagnostics goto_definition references s_bad s_pos s_uses
+  spec_uses frag_ws well_scoped.
